@@ -487,6 +487,12 @@ ApiGroups(list) ==
         \cup (IF \E a \in DOMAIN ver : FiringAt(a, now) /\ \E gk \in GKeys(a) :
                    ~\E j \in 1..Len(list) : list[j].recv = Opt(gk).recv /\ list[j].g = Lbl[a].g /\ a \in SeqToSet(list[j].alerts)
            THEN {"C06_api_groups_miss_firing_alert"} ELSE {})
+        \* one entry per route that holds a firing alert with this receiver and group_by value
+        \cup (IF \E gk \in AllGK : (\E a \in DOMAIN ver : FiringAt(a, now) /\ gk \in GKeys(a)) /\
+                   LET e == [recv |-> Opt(gk).recv, g |-> CHOOSE g \in {"1", "2"} : gk = GK(RouteOfGk(gk), g)]
+                   IN Cardinality({i \in 1..Len(list) : list[i].g = e.g /\ list[i].recv = e.recv})
+                        < Cardinality({x \in Cand(e) : \E a \in DOMAIN ver : FiringAt(a, now) /\ x \in GKeys(a)})
+                THEN {"C06_api_groups_miss_group"} ELSE {})
         \* C15: the group is reported as muted, with the interval names, as of its last flush
         \cup (IF \E j \in 1..Len(list) : Cardinality(Cand(list[j])) = 1 /\
                    LET gk == CHOOSE x \in Cand(list[j]) : TRUE IN
